@@ -1240,6 +1240,11 @@ def augalias_programs():
     return out
 
 
+# (f) subscription with bounds that are objects (their __index__ is the conversion the language reference places BEFORE the assigned items are
+# produced) and right-hand sides that are lazy: order of conversions and item production, faults in a conversion, conversions that change the list
+INDEX_PROG = 'LOG = []\nclass I:\n    def __init__(self, tag, v, lst=None, grow=False, fail=False):\n        self.tag = tag\n        self.v = v\n        self.lst = lst\n        self.grow = grow\n        self.fail = fail\n    def __index__(self):\n        LOG.append("index " + self.tag)\n        if self.fail:\n            raise KeyError(self.tag)\n        if self.grow:\n            self.lst.append(9)\n        return self.v\ndef gen(tag, items):\n    LOG.append("items start " + tag)\n    for x in items:\n        yield x\n    LOG.append("items end " + tag)\ndef v(tag, x):\n    LOG.append("eval " + tag)\n    return x\ndef show(name, f):\n    del LOG[:]\n    try:\n        r = f()\n        print(name, "->", r, LOG)\n    except KeyError:\n        print(name, "-> KeyError", LOG)\n    except ValueError:\n        print(name, "-> ValueError", LOG)\n    except TypeError:\n        print(name, "-> TypeError", LOG)\ndef s1():\n    L = [0, 1, 2, 3, 4]\n    L[v("lo", I("lo", 1)):v("hi", I("hi", 3))] = v("rhs", gen("g", [7, 8, 9]))\n    return L\ndef s2():\n    L = [0, 1, 2, 3, 4]\n    it = gen("g", [7, 8])\n    try:\n        L[I("lo", 1, fail=True):3] = it\n    except KeyError:\n        LOG.append("caught")\n    return L, list(it)\ndef s3():\n    c = [0, 1, 2]\n    c[I("grow", 1, c, grow=True):] = iter(c)\n    return c\ndef s4():\n    L = [0, 1, 2, 3, 4, 5]\n    L[I("lo", 0):I("hi", 6):I("step", 2)] = gen("g", [7, 8, 9])\n    return L\ndef s5():\n    L = [0, 1, 2, 3, 4]\n    del L[I("lo", 1):I("hi", 3)]\n    return L\ndef s6():\n    L = [0, 1, 2, 3, 4]\n    return L[I("lo", 1):I("hi", 4):I("step", 2)], (0, 1, 2, 3)[I("a", 1):I("b", 3)], "abcdef"[I("a", 1):I("b", 3)], list(range(10)[I("a", 2):I("b", 5)])\ndef s7():\n    L = [0, 1, 2]\n    L[I("i", 1)] = v("rhs", 5)\n    return L, L[I("j", 2)]\ndef s8():\n    L = [0, 1, 2, 3]\n    L[I("lo", 1):I("hi", 2)] = map(lambda x: v("m" + str(x), x), [5, 6])\n    return L\ndef s9():\n    L = [0, 1, 2, 3]\n    L[I("lo", 3, L, grow=True):I("hi", 9)] = gen("g", [7])\n    return L\nfor n, f in (("s1", s1), ("s2", s2), ("s3", s3), ("s4", s4), ("s5", s5), ("s6", s6), ("s7", s7), ("s8", s8), ("s9", s9)):\n    show(n, f)\n'
+
+
 class Item:
     __slots__ = ('part', 'tags', 'code', 'key', 'nontrivial', 'node', 'model', 'single', 'tokens', 'env')
 
@@ -1574,6 +1579,22 @@ def run(tier, rep):
                           {'case': {'id': c['id'], 'src': c['src']}, 'operator': c['op'], 'initial': c['init'], 'right': c['rhs'], 'expected': {k: e.get(k) for k in ('out', 'exc')},
                            'got': {k: short(g.get(k), 1500) for k in ('out', 'exc', 'excmsg', 'cerr', 'panic', 'stack') if g.get(k)}})
     extra['augmented_assignment_aliasing_programs'] = ag_n
+
+    # (f) bounds converted through __index__, lazy right-hand sides
+    ic = [{'id': 'index-protocol', 'src': INDEX_PROG}]
+    ie, (ig, _) = oracle_exec(ic), run_vrun('exec', ic, timeout_case=20)
+    e, g = ie.get('index-protocol') or {}, ig.get('index-protocol')
+    if g is None or e.get('oracle_failed') or e.get('exc') or e.get('cerr'):
+        rep.inconc('index-protocol program: no result / oracle failed')
+    else:
+        el, gl = (e.get('out') or '').split('\n')[:-1], (g.get('out') or '').split('\n')
+        for k, x in enumerate(el):
+            evaluated += 1
+            nontriv.add(('index-protocol', x.split(' ')[0]))
+            y = gl[k] if k < len(gl) else None
+            if x != y:
+                rep.violation('C01|subscript-bound-conversion-and-lazy-value|%s|%s' % (x.split(' ')[0], 'panic' if g.get('panic') or g.get('crash') else ('escaped:%s' % g.get('exc') if y is None and g.get('exc') else 'order-or-value')),
+                              {'case': ic[0], 'scenario': x.split(' ')[0], 'expected': x, 'got': y, 'exc': g.get('exc'), 'excmsg': g.get('excmsg'), 'panic': g.get('panic')})
 
     rep.evaluations += evaluated
     rep.nontrivial = nontriv
